@@ -38,6 +38,10 @@ def item(sym, i, rnd=None):
         return [[dt, 0, "p", b"pi".hex() if i % 2 else ""]]
     if sym == "q":
         return [[dt, 0, "q", b"po".hex() if i % 2 else ""]]
+    if sym == "P":      # the largest legal control frames
+        return [[dt, 0, "p", (b"\x7e" * 125).hex()]]
+    if sym == "Q":
+        return [[dt, 0, "q", (b"\x7f" * 125).hex()]]
     if sym == "U":
         return [[dt, 0, "t", tx.hex()], [0, 1, "p", "70"], [0, 1, "B", (bn + b"zz").hex()]]
     if sym == "H":      # first fragment alone, the rest later
@@ -98,6 +102,11 @@ def scenarios(ctx):
                     scs.append(scenario(word, end, ssl))
     for word in itertools.product(alpha, repeat=6 if ctx.thorough() else 5):
         scs.append(scenario(word, "eof", False))
+    # 125-byte pings and pongs, between and inside messages
+    for word in (["P"], ["Q"], ["t", "P", "b"], ["P", "Q", "t"], ["H", "P"], ["t", "Q", "P", "T"]):
+        for ssl in (False, True):
+            for end in ("silence", "eof"):
+                scs.append(scenario(word, end, ssl))
     # a first fragment alone
     for word in (["H"], ["t", "H", "p"], ["H", "H"], ["U", "H", "q"]):
         for ssl in (False, True):
